@@ -242,7 +242,8 @@ def _const_only_locals(raw):
     for b in raw['blocks']:
         for s in b['stmts']:
             if s['k'] == 'assign' and not s['place']['p']:
-                (const if s['rv']['k'] == 'use' and s['rv']['op']['k'] == 'const' else nonconst).add(s['place']['l'])
+                # constants written by the combinator models (is_some() => true / false) are real results, not drop flags
+                (const if s['rv']['k'] == 'use' and s['rv']['op']['k'] == 'const' and not s.get('syn') else nonconst).add(s['place']['l'])
         t = b['term']
         if t['k'] == 'call' and not t['dest']['p']:
             nonconst.add(t['dest']['l'])
@@ -510,9 +511,263 @@ def propagate_aggregates(raw):
     return total
 
 
-def normalize(raw):
-    """in place; returns (try expansions, threaded jumps, field reads forwarded)"""
+
+
+# ---------------------------------------------------------------------------------------------------------------
+# models of the std combinators whose closure argument is written in place (so that
+#   opt.map(|x| f(x))      ==  match opt { Some(x) => Some(f(x)), None => None }
+#   r.is_ok() / if ..      ==  match r { Ok(_) => .., Err(_) => .. }
+#   it.for_each(|x| ..)    ==  for x in it { .. }
+# look the same to the rules)
+
+def _closure_of(raw, op):
+    """def-path of the crate closure held by operand `op` (a local built once by a closure aggregate), else None"""
+    l = _bare(op)
+    if l is None:
+        return None
+    defs = []
+    for b in raw['blocks']:
+        for s in b['stmts']:
+            if s['k'] == 'assign' and s['place']['l'] == l and not s['place']['p']:
+                defs.append(s)
+        t = b['term']
+        if t['k'] == 'call' and t['dest']['l'] == l:
+            defs.append(None)
+    if len(defs) == 1 and defs[0] is not None and defs[0]['rv'].get('closure'):
+        return defs[0]['rv']['closure']
+    return None
+
+
+def _apply(raw, raws, bi, fop, args, dest, target, unwind, t):
+    """make block bi end with `dest = f(args...)` then goto target, f being a crate closure (inlined) or a fn item (called)"""
+    import inline
+    b = raw['blocks'][bi]
+    cp = _closure_of(raw, fop)
+    if cp is not None and cp in raws:
+        g = raws[cp]
+        if g['arg_count'] == 1 + len(args):
+            env_ty = g['locals'][1]['ty']
+            if env_ty.startswith('&'):
+                e = _new_local(raw, env_ty)
+                b['stmts'].append(_assign(_loc(e, env_ty), {'k': 'ref', 'mut': env_ty.startswith('&mut') or bool(re.match(r"&'\w+ mut ", env_ty)),
+                                                              'place': copy.deepcopy(fop['place'])}, t))
+                env = {'k': 'move', 'place': _loc(e, env_ty)}
+            else:
+                env = fop
+            inline.splice(raw, bi, g, [env] + args, dest, target, unwind, t, cp)
+            return True
+        return False
+    if fop.get('k') == 'const' and fop.get('fn'):
+        b['term'] = {'k': 'call', 'func': fop, 'fn_ty': fop.get('ty'), 'indirect': False, 'args': args, 'dest': dest, 'target': target, 'unwind': unwind,
+                     'line': t.get('line'), 'file': t.get('file'), 'exp': t.get('exp'), 'syn': True}
+        return True
+    return False
+
+
+def _enum_place(op):
+    """(place of the enum value, its type) for an operand that is the enum by value or a reference to it"""
+    if op.get('k') not in ('copy', 'move'):
+        return None, None
+    p = op['place']
+    ty = p['ty']
+    m = re.match(r"&(?:'\w+ )?(?:mut )?(.*)$", ty)
+    if m:
+        q = copy.deepcopy(p)
+        q['p'] = q['p'] + ['deref']
+        q['ty'] = m.group(1)
+        return q, m.group(1)
+    return copy.deepcopy(p), ty
+
+
+OPT_MODELS = {'map', 'and_then', 'unwrap_or_else', 'ok_or_else', 'map_or_else', 'is_some', 'is_none', 'ok_or', 'map_or', 'unwrap_or', 'as_ref', 'as_mut'}
+RES_MODELS = {'map', 'map_err', 'and_then', 'unwrap_or_else', 'is_ok', 'is_err', 'ok', 'err', 'or_else'}
+
+
+def expand_combinators(raw, raws, max_n=40):
+    n = 0
+    i = 0
+    while i < len(raw['blocks']) and n < max_n:
+        b = raw['blocks'][i]
+        t = b['term']
+        i += 1
+        if t['k'] != 'call' or t['func'].get('k') != 'const' or not t['func'].get('fn') or t.get('target') is None:
+            continue
+        fn = t['func']['fn']
+        r = fn.get('resolved') or {}
+        best = r.get('def') if r.get('kind') == 'item' else fn['def']
+        m = re.match(r'std::(option::Option::<T>|result::Result::<T, E>)::(\w+)$', best or '')
+        bi = i - 1
+        g = {'line': t.get('line'), 'file': t.get('file'), 'exp': t.get('exp'), 'syn': True}
+        dest, tgt, uw, args = t['dest'], t['target'], t.get('unwind'), t['args']
+        if m:
+            is_opt = m.group(1).startswith('option')
+            name = m.group(2)
+            if name not in (OPT_MODELS if is_opt else RES_MODELS):
+                continue
+            ep, ety = _enum_place(args[0])
+            if ep is None:
+                continue
+            head, gen = _split_generics(ety)
+            if (is_opt and (head != OPT or len(gen) != 1)) or (not is_opt and (head != RES or len(gen) != 2)):
+                continue
+            by_ref = ep['p'][-1:] == ['deref'] and args[0]['place']['ty'].startswith('&')
+            mv = 'copy' if by_ref else 'move'
+            d = _new_local(raw, 'isize')
+            unreach = _new_block(raw, [], dict(g, k='unreachable'), b['cleanup'])
+            dty = dest['ty']
+            dh, dg = _split_generics(dty)
+
+            def arm(stmts=None):
+                return _new_block(raw, stmts or [], dict(g, k='goto', target=tgt), b['cleanup'])
+
+            def const_bool(v):
+                return arm([_assign(dest, {'k': 'use', 'op': {'k': 'const', 'ty': 'bool', 'text': 'true' if v else 'false', 'bits': '1' if v else '0'}}, t)])
+            if is_opt:
+                T = gen[0]
+                some_p = {'k': mv, 'place': _field(ep, 1, 'Some', OPT, T)}
+                if name in ('is_some', 'is_none'):
+                    a_none, a_some = const_bool(name == 'is_none'), const_bool(name == 'is_some')
+                elif name in ('as_ref', 'as_mut'):
+                    if not by_ref or not dg:
+                        continue
+                    rt = dg[0]
+                    tmp = _new_local(raw, rt)
+                    a_some = arm([_assign(_loc(tmp, rt), {'k': 'ref', 'mut': name == 'as_mut', 'place': _field(ep, 1, 'Some', OPT, T)}, t),
+                                  _assign(dest, _agg(OPT, 1, 'Some', dg, [{'k': 'move', 'place': _loc(tmp, rt)}]), t)])
+                    a_none = arm([_assign(dest, _agg(OPT, 0, 'None', dg, []), t)])
+                elif name == 'map':
+                    U = dg[0] if dg else '?'
+                    tmp = _new_local(raw, U)
+                    fin = arm([_assign(dest, _agg(OPT, 1, 'Some', [U], [{'k': 'move', 'place': _loc(tmp, U)}]), t)])
+                    a_some = _new_block(raw, [], dict(g, k='unreachable'), b['cleanup'])
+                    if not _apply(raw, raws, a_some, args[1], [some_p], _loc(tmp, U), fin, uw, t):
+                        continue
+                    a_none = arm([_assign(dest, _agg(OPT, 0, 'None', [U], []), t)])
+                elif name == 'and_then':
+                    a_some = _new_block(raw, [], dict(g, k='unreachable'), b['cleanup'])
+                    if not _apply(raw, raws, a_some, args[1], [some_p], dest, tgt, uw, t):
+                        continue
+                    a_none = arm([_assign(dest, _agg(OPT, 0, 'None', dg, []), t)])
+                elif name in ('unwrap_or_else', 'unwrap_or'):
+                    a_some = arm([_assign(dest, {'k': 'use', 'op': some_p}, t)])
+                    if name == 'unwrap_or':
+                        a_none = arm([_assign(dest, {'k': 'use', 'op': args[1]}, t)])
+                    else:
+                        a_none = _new_block(raw, [], dict(g, k='unreachable'), b['cleanup'])
+                        if not _apply(raw, raws, a_none, args[1], [], dest, tgt, uw, t):
+                            continue
+                elif name in ('ok_or_else', 'ok_or'):
+                    a_some = arm([_assign(dest, _agg(RES, 0, 'Ok', dg, [some_p]), t)])
+                    if name == 'ok_or':
+                        a_none = arm([_assign(dest, _agg(RES, 1, 'Err', dg, [args[1]]), t)])
+                    else:
+                        E = dg[1] if len(dg) == 2 else '?'
+                        tmp = _new_local(raw, E)
+                        fin = arm([_assign(dest, _agg(RES, 1, 'Err', dg, [{'k': 'move', 'place': _loc(tmp, E)}]), t)])
+                        a_none = _new_block(raw, [], dict(g, k='unreachable'), b['cleanup'])
+                        if not _apply(raw, raws, a_none, args[1], [], _loc(tmp, E), fin, uw, t):
+                            continue
+                elif name in ('map_or_else', 'map_or'):
+                    a_some = _new_block(raw, [], dict(g, k='unreachable'), b['cleanup'])
+                    if not _apply(raw, raws, a_some, args[2], [some_p], dest, tgt, uw, t):
+                        continue
+                    if name == 'map_or':
+                        a_none = arm([_assign(dest, {'k': 'use', 'op': args[1]}, t)])
+                    else:
+                        a_none = _new_block(raw, [], dict(g, k='unreachable'), b['cleanup'])
+                        if not _apply(raw, raws, a_none, args[1], [], dest, tgt, uw, t):
+                            continue
+                else:
+                    continue
+                targets = [['0', a_none], ['1', a_some]]
+            else:
+                T, E = gen
+                ok_p = {'k': mv, 'place': _field(ep, 0, 'Ok', RES, T)}
+                err_p = {'k': mv, 'place': _field(ep, 1, 'Err', RES, E)}
+                if name in ('is_ok', 'is_err'):
+                    a_ok, a_err = const_bool(name == 'is_ok'), const_bool(name == 'is_err')
+                elif name == 'ok':
+                    a_ok = arm([_assign(dest, _agg(OPT, 1, 'Some', [T], [ok_p]), t)])
+                    a_err = arm([_assign(dest, _agg(OPT, 0, 'None', [T], []), t)])
+                elif name == 'err':
+                    a_ok = arm([_assign(dest, _agg(OPT, 0, 'None', [E], []), t)])
+                    a_err = arm([_assign(dest, _agg(OPT, 1, 'Some', [E], [err_p]), t)])
+                elif name == 'map':
+                    U = dg[0] if dg else '?'
+                    tmp = _new_local(raw, U)
+                    fin = arm([_assign(dest, _agg(RES, 0, 'Ok', dg, [{'k': 'move', 'place': _loc(tmp, U)}]), t)])
+                    a_ok = _new_block(raw, [], dict(g, k='unreachable'), b['cleanup'])
+                    if not _apply(raw, raws, a_ok, args[1], [ok_p], _loc(tmp, U), fin, uw, t):
+                        continue
+                    a_err = arm([_assign(dest, _agg(RES, 1, 'Err', dg, [err_p]), t)])
+                elif name == 'map_err':
+                    F = dg[1] if len(dg) == 2 else '?'
+                    tmp = _new_local(raw, F)
+                    fin = arm([_assign(dest, _agg(RES, 1, 'Err', dg, [{'k': 'move', 'place': _loc(tmp, F)}]), t)])
+                    a_err = _new_block(raw, [], dict(g, k='unreachable'), b['cleanup'])
+                    if not _apply(raw, raws, a_err, args[1], [err_p], _loc(tmp, F), fin, uw, t):
+                        continue
+                    a_ok = arm([_assign(dest, _agg(RES, 0, 'Ok', dg, [ok_p]), t)])
+                elif name == 'and_then':
+                    a_ok = _new_block(raw, [], dict(g, k='unreachable'), b['cleanup'])
+                    if not _apply(raw, raws, a_ok, args[1], [ok_p], dest, tgt, uw, t):
+                        continue
+                    a_err = arm([_assign(dest, _agg(RES, 1, 'Err', dg, [err_p]), t)])
+                elif name == 'or_else':
+                    a_err = _new_block(raw, [], dict(g, k='unreachable'), b['cleanup'])
+                    if not _apply(raw, raws, a_err, args[1], [err_p], dest, tgt, uw, t):
+                        continue
+                    a_ok = arm([_assign(dest, _agg(RES, 0, 'Ok', dg, [ok_p]), t)])
+                elif name == 'unwrap_or_else':
+                    a_ok = arm([_assign(dest, {'k': 'use', 'op': ok_p}, t)])
+                    a_err = _new_block(raw, [], dict(g, k='unreachable'), b['cleanup'])
+                    if not _apply(raw, raws, a_err, args[1], [err_p], dest, tgt, uw, t):
+                        continue
+                else:
+                    continue
+                targets = [['0', a_ok], ['1', a_err]]
+            b['stmts'].append(_assign(_loc(d, 'isize'), {'k': 'discr', 'place': ep}, t))
+            b['term'] = dict(g, k='switch', discr={'k': 'move', 'place': _loc(d, 'isize')}, discr_ty='isize', targets=targets, otherwise=unreach, model=best)
+            n += 1
+        elif fn['def'] == 'std::iter::Iterator::for_each' and len(args) == 2 and args[0].get('k') in ('move', 'copy'):
+            ity = args[0]['place']['ty']
+            it = _new_local(raw, ity)
+            b['stmts'].append(_assign(_loc(it, ity), {'k': 'use', 'op': args[0]}, t))
+            cp = _closure_of(raw, args[1])
+            if cp is None or cp not in raws or raws[cp]['arg_count'] != 2:
+                b['stmts'].pop()
+                continue
+            item_ty = raws[cp]['locals'][2]['ty']
+            oty = '%s<%s>' % (OPT, item_ty)
+            nxt = _new_local(raw, oty, OPT)
+            rty = '&mut ' + ity
+            rf = _new_local(raw, rty)
+            d = _new_local(raw, 'isize')
+            unit = _new_local(raw, '()')
+            hdr = _new_block(raw, [_assign(_loc(rf, rty), {'k': 'ref', 'mut': True, 'place': _loc(it, ity)}, t)], None, b['cleanup'])
+            sw = _new_block(raw, [_assign(_loc(d, 'isize'), {'k': 'discr', 'place': _loc(nxt, oty)}, t)], None, b['cleanup'])
+            unreach = _new_block(raw, [], dict(g, k='unreachable'), b['cleanup'])
+            done = _new_block(raw, [_assign(dest, {'k': 'use', 'op': {'k': 'const', 'ty': '()', 'text': '()'}}, t)], dict(g, k='goto', target=tgt), b['cleanup'])
+            body = _new_block(raw, [], dict(g, k='unreachable'), b['cleanup'])
+            text = '<%s as std::iter::Iterator>::next' % ity
+            raw['blocks'][hdr]['term'] = dict(g, k='call', func={'k': 'const', 'ty': text, 'text': text, 'fn': {
+                'def': 'std::iter::Iterator::next', 'args': [ity], 'local': False, 'krate': 'core', 'trait': 'std::iter::Iterator', 'self_ty': ity, 'name': 'next',
+                'method': True, 'recv': '&mut Self', 'sig_inputs': ['&mut Self'], 'sig_output': 'std::option::Option<Self::Item>', 'resolved': None}},
+                fn_ty=text, indirect=False, args=[{'k': 'move', 'place': _loc(rf, rty)}], dest=_loc(nxt, oty), target=sw, unwind=uw)
+            raw['blocks'][sw]['term'] = dict(g, k='switch', discr={'k': 'move', 'place': _loc(d, 'isize')}, discr_ty='isize', targets=[['0', done], ['1', body]], otherwise=unreach,
+                                             model='for_each')
+            if not _apply(raw, raws, body, args[1], [{'k': 'move', 'place': _field(_loc(nxt, oty), 1, 'Some', OPT, item_ty)}], _loc(unit, '()'), hdr, uw, t):
+                b['stmts'].pop()
+                continue
+            b['term'] = dict(g, k='goto', target=hdr, model='for_each')
+            n += 1
+    return n
+
+
+def normalize(raw, raws=None):
+    """in place; returns (combinator expansions, try expansions, threaded jumps, field reads forwarded)"""
+    m = expand_combinators(raw, raws) if raws is not None else 0
     a = expand_try(raw)
     b = thread_jumps(raw)
-    c = propagate_aggregates(raw) if (a or b) else 0
-    return a, b, c
+    c = propagate_aggregates(raw) if (a or b or m) else 0
+    return m, a, b, c
